@@ -152,11 +152,53 @@ func runExecProbeCase(c fw.Case, sp pbSpec) fw.Result {
 	return r
 }
 
+// runSlowProbeCase: the process is stopped (or restarted) while a probe that
+// will succeed is still waiting for its answer; the late success belongs to a
+// command that is gone.
+func runSlowProbeCase(c fw.Case, sp pbSpec) fw.Result {
+	spec := LifeSpec{BackoffUnitMs: 20, SilenceMs: 8000, MaxMs: 40000, EndWithShutdown: true}
+	spec.Procs = []PSpec{{Name: "hp", RunMs: []int{-1}, Restart: "no", Probe: true, ProbeFail: 3, ProbeSlowMs: 400, ProbeSeq: []int{1, 1, 1, 1, 1, 1, 1, 1}}}
+	spec.Ops = []Op{
+		{When: fmt.Sprintf("probe:hp:%d", sp.Threshold), Op: "sleep", N: 50},
+		{When: "now", Op: "stop", Proc: "hp"},
+		{When: "now", Op: "sleep", N: 900},
+	}
+	lr := RunLife(c.Seed, &spec, nil)
+	r := fw.Result{NonTrivial: true}
+	if lr.LoadErr != nil {
+		r.Inconclusive = "load: " + lr.LoadErr.Error()
+		return r
+	}
+	ix := indexLife(lr.Events)
+	exitSeq := -1
+	for _, e := range lr.Events {
+		if e.Proc == "hp" && e.Kind == sim.EvExit {
+			exitSeq = e.Seq
+		}
+		if e.Proc == "hp" && e.Kind == sim.EvHealth && e.Str == types.ProcessHealthReady && exitSeq >= 0 && e.Seq > exitSeq && !ix.aliveAt("hp", e.Seq) {
+			r.Add("C10", "ready-while-not-running", "hp was stopped while a readiness probe was waiting for its answer; the late success made it report Ready (seq %d) although its command had exited (seq %d)", e.Seq, exitSeq)
+			break
+		}
+	}
+	if exitSeq < 0 {
+		r.Inconclusive = "hp was never stopped"
+	}
+	r.Count("slow_probe_cases", 1)
+	if len(r.Findings) > 0 {
+		r.Witness = witness(lr, 200)
+	}
+	r.Sig = sim.Hash(fmt.Sprint("slow", sp.Threshold))
+	return r
+}
+
 func runProbeCase(c fw.Case) fw.Result {
 	var sp pbSpec
 	c.Params(&sp)
 	if sp.Exec != "" {
 		return runExecProbeCase(c, sp)
+	}
+	if sp.Kind == "slow-probe-stop" {
+		return runSlowProbeCase(c, sp)
 	}
 	if sp.Kind == "initial-delay" {
 		return runProbeDelayCase(c, sp)
@@ -450,6 +492,15 @@ func runProbeGrid(c fw.Case) fw.Result {
 			}
 		}
 	}
+	// num_port given directly (no textual port)
+	for _, np := range []int{0, 1, 80, 65535, 65536, 70000, -1, -65536, 1 << 31} {
+		for _, port := range []string{"", "8080", "abc"} {
+			n++
+			p := health.Probe{HttpGet: &health.HttpProbe{Port: port, NumPort: np}}
+			p.ValidateAndSetDefaults()
+			legal(&p, "ValidateAndSetDefaults", fmt.Sprintf("port=%q num_port=%d", port, np))
+		}
+	}
 	r.Count("parameter_combinations", n)
 	// the loader path on a sample of the grid
 	dir, err := os.MkdirTemp(sim.Scratch, "pg-")
@@ -498,6 +549,10 @@ func init() {
 					break
 				}
 				cs = append(cs, fw.MkCase("C10", "exec-probe", fw.SubSeed(seed, 900000+i), pbSpec{Exec: v, Threshold: 1 + i%2}))
+			}
+			for i := 0; i < tierN(tier, 4, 12); i++ {
+				// stopped while the (1+i%3)-th probe is in flight
+				cs = append(cs, fw.MkCase("C10", "slow-probe-stop", fw.SubSeed(seed, 910000+i), pbSpec{Kind: "slow-probe-stop", Threshold: 1 + i%3}))
 			}
 			for i := 0; i < tierN(tier, 143, 2400); i++ {
 				s := fw.SubSeed(seed, i)
